@@ -210,6 +210,16 @@ def _gen(rng, fmt, scale=1):
                             take = idxs[:rng.randint(1, max(1, len(idxs) - 1))] if ev["k"] == "c" else [0]
                             ev["xs"] = sorted([i, rng.choice(others)] for i in take)
         A["cross_staff"] = True
+    if fmt == "mei" and rng.random() < 0.2:
+        # a first layer that stops before the end of its bar (a divided voice that exists only at the start of the bar, written
+        # without padding): the bar is as long as its longest layer
+        cands = [(mi, str(st["n"])) for mi, M in enumerate(A["measures"]) for st in A["staves"]
+                 if len(M["staves"][str(st["n"])]) >= 2 and len(M["staves"][str(st["n"])][0]["ev"]) >= 2
+                 and M["staves"][str(st["n"])][0]["ev"][-1]["k"] in ("r", "s") and not M["staves"][str(st["n"])][0]["ev"][-1].get("tu")]
+        if cands:
+            mi, sn = rng.choice(cands)
+            A["measures"][mi]["staves"][sn][0]["ev"].pop()
+            A["short_first_layer"] = [mi, sn]
     return A, _options(rng, fmt, A)
 
 
